@@ -505,8 +505,9 @@ fn check_completed_step(
     //    restricted to what the negotiated version carries
     let want: DataSet = restrict(&set, eod_v);
     if t.data != want {
-        let missing: Vec<_> = want.iter().filter(|(k, v)| t.data.get(*k) != Some(*v)).take(4).collect();
-        let extra: Vec<_> = t.data.iter().filter(|(k, v)| want.get(*k) != Some(*v)).take(4).collect();
+        let abbr = |(k, v): (&crate::source::Key, &Vec<u32>)| if v.len() > 8 { format!("({:?}, {:?}.. {} providers)", k, &v[..6], v.len()) } else { format!("({:?}, {:?})", k, v) };
+        let missing: Vec<String> = want.iter().filter(|(k, v)| t.data.get(*k) != Some(*v)).take(4).map(abbr).collect();
+        let extra: Vec<String> = t.data.iter().filter(|(k, v)| want.get(*k) != Some(*v)).take(4).map(abbr).collect();
         return Err(Violation::new(
             "data-mismatch",
             if applied.reset { "after-reset" } else { "after-diff" },
